@@ -2723,8 +2723,12 @@ class TLSConnection(TLSRecordLayer):
                     getattr(CertificateCompressionAlgorithm, algo) for algo
                     in settings.certificate_compression_receive
                 ]
-                extensions.append(CompressedCertificateExtension().create(
-                    algos_numbers))
+                # RFC 8879: the list must not be empty; with no algorithm
+                # enabled the extension is simply not sent
+                if algos_numbers:
+                    extensions.append(
+                        CompressedCertificateExtension().create(
+                            algos_numbers))
 
         certificate_request.create(context=context, sig_algs=valid_sig_algs,
                                    extensions=extensions)
